@@ -33,6 +33,12 @@ CHECKS = {
     "C10": ("explicit left-to-right semiring fold (numpy) as reference model for every Markov-product entry point; brute-force unrolling and naive counterpart for lagged models",
             "Random transitions over all durations 1..12, state pairs, batch inputs, input orders and semirings are run through sequential/naive/mixed (every num_segments) products, MarkovProduct eager, lazy+reinterpret and renamed, with optional real parameter; lagged models through sarkka_bilmes_product with several period counts, against the naive variant and an unrolled fold. Exploration.",
             "trusted: numpy/scipy semiring fold in fv/checks/c10.py", "DESIGN.md §6 C10"),
+    "C12": ("dense quadratic-form reference model composed through closures; structural read-out and funsor binding of results at random points",
+            "Gaussians of every parametrisation, rank class and input interleaving are pushed through random compositions (depth<=3) of the supported pointwise operations and compared with -1/2 x'Px + x'eta + c computed from the generator's parameters. Exploration.",
+            "trusted: fv/dense.py, numpy.linalg; rtol 1e-5 on well-conditioned factors", "DESIGN.md §6 C12"),
+    "C13": ("closed-form Schur-complement / moment oracle on the dense form; completion and error-behaviour monitor",
+            "Full-rank Gaussians in every input interleaving are marginalised over every subset of real inputs (one step, two steps in both orders, before/after evaluation), normalised, plate-summed, mixture-reduced, integrated against variables and Gaussians and moment-matched; results must complete and equal the closed forms; rank-deficient blocks must raise. Exploration.",
+            "trusted: fv/dense.py closed forms, numpy.linalg, scipy logsumexp", "DESIGN.md §6 C13"),
     "C15": ("runtime oracle over op-table axioms on edge grids; scalar/0-d/array differential; NaN monitor on safe ops",
             "Every published table entry and every catalogue op is executed on an edge-value grid crossed with random values, shapes and operand orders; numpy/math/scipy arithmetic is the independent oracle. Exploration: held on the grid that was run, nothing beyond.",
             "trusted: numpy/scipy/math arithmetic; carriers as stated in the property (non-negative for max/min with mul, booleans for and/or)", "DESIGN.md §6 C15"),
